@@ -175,7 +175,7 @@ def run(case):
                     {ckey: [[[p2[0] + "|in", p2[0] + "|out"], [p2[0] + "|out", p2[1] + "|in"], [p2[1] + "|in", p2[1] + "|out"]]]})
         # MinFlowDecomp takes additional starts / ends in node mode only: its explicit expansion gets a global source S* (sink T*)
         # node, split like every node, whose own arc and whose arcs to the starts (from the ends) are ignored
-        glob = cls == "MinFlowDecomp"
+        glob = cls in ("MinFlowDecomp", "MinFlowDecompCycles")
         if cls in sweep.ACCEPTS_STARTS | {"MinErrorFlow", "MinFlowDecomp", "MinFlowDecompCycles"}:
             for v in inner[:2]:
                 add(f"add_start:{v}", use0, {"additional_starts": [v]}, {"_global_starts" if glob else "additional_starts": [v + "|in"]}, starts=[v])
